@@ -20,14 +20,15 @@ CONSTANTS
   Amts,        \* bid amounts offered
   CapSet,      \* allow-list caps offered
   MaxBids,     \* bids per auction
-  MaxMods,     \* modifications per behaviour (counted through ghost-free bound on bid growth)
+  MaxMods,     \* 0: no modifications offered; otherwise every growth of a bid within Prices x Amts is offered
   MaxDon,      \* donations per behaviour
   WithInvalid, \* also offer malformed / unauthorised variants of every message
   WithGenesis, \* also offer genesis round trips
   WithParams,  \* also offer MsgUpdateParams (authority, validity, fee settings incl. empty fees, extension period 0..2)
   WithQueries, \* C16: also offer queries (answers are compared with the state the request describes)
   Faults,      \* C07: a block is offered with fault = f for every f here (0 = no injected bank failure)
-  HookVariants \* C17: also offer every input with one failing listener
+  HookVariants,\* C17: also offer every input with one failing listener
+  BidKinds     \* bid types offered on batch auctions (subset of {"W", "M"})
 
 Half == D \div 2
 (* creation templates; all times are relative to the block time `now' at which the message is sent *)
@@ -92,7 +93,7 @@ BidDenoms(s, id, ty) ==
     [] ty = "W" -> {a.payDenom}
     [] ty = "M" -> {a.sellDenom}
 
-BidTypes(s, id) == IF Auc(s, id).type = "F" THEN {"F"} ELSE {"W", "M"}
+BidTypes(s, id) == IF Auc(s, id).type = "F" THEN {"F"} ELSE BidKinds
 
 GoodBids(s) ==
   UNION { IF Len(s.bids[id + 1]) < MaxBids /\ Auc(s, id).status = "Started"
@@ -235,7 +236,7 @@ MCInputs0(kind, s, g) ==
     [] kind = "CreateBatch" -> {m \in Creates(s) : m.a = "CreateBatch"}
     [] kind = "Block" -> Blocks(s)
     [] kind = "Bid" -> ValidDenomBids(s)
-    [] kind = "Modify" -> Mods(s)
+    [] kind = "Modify" -> IF MaxMods = 0 THEN {} ELSE Mods(s)
     [] kind = "AddAllowed" -> {m \in Allow(s) : m.a = "AddAllowed"}
     [] kind = "UpdateAllowed" -> {m \in Allow(s) : m.a = "UpdateAllowed"}
     [] kind = "MsgAddAllowed" -> IF WithInvalid THEN {m \in OddAllow(s) : m.a = "MsgAddAllowed"} ELSE {}
